@@ -20,10 +20,11 @@ THEOREMS = [
     dict(name="Snow.C16.all_is_union", clause="'all' selects every vial and is the union of the classes", strength="full"),
     dict(name="Snow.C16.class_is_exposure_level", clause="a class contains exactly the vials with the corresponding number of exposed faces", strength="full"),
     dict(name="Snow.C16.union_of_groups", clause="a list of group names selects the union of the named classes", strength="full"),
-    dict(name="Snow.C16.labels_agree", clause="statistics-table label = trajectory-table label = the vial's class in getVialGroup", strength="full"),
-    dict(name="Snow.C16.fall_filter_agrees", clause="Snowfall's group filter keeps exactly the vials of getVialGroup(group)", strength="full"),
+    dict(name="Snow.C16.labels_agree", clause="the table label is the name of a class that contains the vial, and the vial is in the class named g iff g and the label are the same class up to the synonyms (its first conjunct, statistics label = trajectory label, is between two statement lists that are identical after fix F7; see labels_closed_form)", strength="full"),
+    dict(name="Snow.C16.labels_closed_form", clause="both label computations of to_frame (two separately transcribed lists of df.loc assignments applied in order) equal the first-match closed form for EVERY exposure value (the hexagonal 'side' assignment never fires) and hence each other", strength="full"),
+    dict(name="Snow.C16.fall_filter_agrees", clause="Snowfall's group filter (rows whose vial index is in the getVialGroup mask) keeps exactly the rows whose table label is one of the requested classes up to the synonyms, for all shapes with n_x, n_y >= 2", strength="full"),
     dict(name="Snow.C16.store_group_agrees", clause="a storeStates group request records exactly getVialGroup(group)", strength="full"),
-    dict(name="Snow.C16.store_thinning_in_group", clause="uniform / random thinning of a group request records only vials of the named group", strength="full"),
+    dict(name="Snow.C16.store_thinning_in_group", clause="uniform thinning of a group request records only vials of the named group (content); the random half restates numpy's choice contract (choice taken from the group) — by construction, the fact about the code rests on the recorded choices of the correspondence check", strength="full"),
     dict(name="Snow.C16.trajLabel_upstream_counterexample", clause="before fix F7 the trajectory table labels a flat-shelf core vial 'side'", strength="refutation-of-old-code"),
     dict(name="Snow.C16.fallFilter_upstream_counterexample", clause="before fix K5 Snowfall's filter 'side' is empty on a 3x3x1 shelf while getVialGroup('side') is the edge set", strength="refutation-of-old-code"),
     dict(name="Snow.C16.nonvacuous", clause="hypotheses are satisfiable; all four classes are inhabited in a 3x3x3 pallet", strength="nonvacuity"),
